@@ -59,6 +59,18 @@ CHECKS["C03"] = {
     "assumptions": ["puppet and oracle are our reading of the protocol", _SAMPLING],
 }
 
+CHECKS["C04"] = {
+    "level": "fault_enumeration",
+    "technique": _TECH + ": modifying relay between two real endpoints; every cleartext handshake byte and frame perturbed for four handshake shapes",
+    "level_text": "Fault enumeration: for four handshake shapes (no authentication + encryption, CLAIMTOBE, TOKEN, resumed session with reply) a fault-free baseline inside the simulator measures the cleartext frames of each direction; then every byte offset of every cleartext frame (header and payload, both directions) is XORed with 0x01, XORed with 0x80 and zeroed (every 3rd in quick, all in thorough), every frame is removed, an empty partial and an empty complete frame are inserted before and after every frame, every frame is split in two and adjacent partial frames are merged - by an on-path filter inside the simulated connection between a real client and a real server. Oracle: if the relay's output differed from its input, it must not happen that the client's handshake succeeds with encryption on (it would have authenticated the first protected frame) or that the server accepts application data on an encrypted stream. Failures, hangs and outcomes negotiated down to plaintext are acceptable.",
+    "level_note": "Shapes are limited to the methods that run in the simulator (no SSL/FS/KERBEROS/SCITOKENS). Whether a downgrade to plaintext is acceptable is C03/C10's subject, not this check's.",
+    "budget": {"quick": 30, "thorough": 900},
+    "rule": "a case is one handshake shape with one modification of one cleartext frame applied in transit; distinct = distinct event-log hash; non-trivial = the fault fired.",
+    "real": _REAL_SEC,
+    "stub": _SIM + ["on-path modifying relay (simnet.FrameFilter)"],
+    "assumptions": ["frame layout of the faulted run equals the baseline's (fixed-length ids via the verif hook)", _SAMPLING],
+}
+
 CHECKS["C10"] = {
     "level": "exploration",
     "technique": _TECH + ": two real endpoints over the simulated network for every cell of the policy matrix; independently written decision table as oracle",
